@@ -190,6 +190,9 @@ def run_point(rec: Recorder, point: dict[str, typing.Any], certs: tlsnet.Certs) 
                 pool = pm.connection_from_url(f"https://{host}/")
                 do = lambda: pm.urlopen("GET", f"https://{host}/secret?token=abc", retries=retries, headers={"Authorization": "Bearer app-secret"})  # noqa: E731
             else:
+                if point["route"] == "https-tunnel" and point.get("proxy_pin"):
+                    # the TLS leg to the proxy is pinned separately: it counts as verified whatever the origin's settings are
+                    kw = dict(kw, proxy_assert_fingerprint=hashlib.sha256(certs.get("proxy", "trusted")["der"]).hexdigest())
                 pm = urllib3.ProxyManager(("https" if point["route"] == "https-tunnel" else "http") + "://proxy.test:3128", retries=False, maxsize=1, **kw)
                 pool = pm.connection_from_url(f"https://{host}/")
                 do = lambda: pm.urlopen("GET", f"https://{host}/secret?token=abc", retries=retries, headers={"Authorization": "Bearer app-secret"})  # noqa: E731
@@ -300,7 +303,7 @@ def random_point(rng: typing.Any, pyopenssl: bool) -> dict[str, typing.Any]:
     return {
         "cert_reqs": rng.choice(CERT_REQS + ["unset", "unset"]), "assert_hostname": rng.choice(ASSERT_HOSTNAME + ["unset", "unset"]), "fingerprint": rng.choice(FINGERPRINT + ["unset"] * 6),
         "server_hostname": rng.choice(SERVER_HOSTNAME + ["unset", "unset"]), "ssl_context": rng.choice(CONTEXTS + ["none", "none"]), "ca_source": rng.choice(CA_SOURCE + ["ca_certs"] * (5 if pyopenssl else 2)),
-        "issuer": rng.choice(["trusted", "trusted", "untrusted"]), "leaf": leaf, "host": host, "route": rng.choice(ROUTES + ["manager-after-lax"] + ([] if pyopenssl else ["https-tunnel"])), "pyopenssl": pyopenssl, "lax": rng.choice([{"assert_hostname": False}, {"cert_reqs": "CERT_NONE"}, {"cert_reqs": "CERT_NONE", "assert_hostname": False}, {"assert_fingerprint": None, "assert_hostname": False}]), "again": rng.random() < 0.3, "retry": rng.random() < 0.2,
+        "issuer": rng.choice(["trusted", "trusted", "untrusted"]), "leaf": leaf, "host": host, "route": rng.choice(ROUTES + ["manager-after-lax"] + ([] if pyopenssl else ["https-tunnel"])), "pyopenssl": pyopenssl, "lax": rng.choice([{"assert_hostname": False}, {"cert_reqs": "CERT_NONE"}, {"cert_reqs": "CERT_NONE", "assert_hostname": False}, {"assert_fingerprint": None, "assert_hostname": False}]), "again": rng.random() < 0.3, "retry": rng.random() < 0.2, "proxy_pin": rng.random() < 0.4,
     }
 
 
@@ -337,6 +340,19 @@ def run_shard(ctx: Ctx, rec: Recorder) -> None:
                         p = dict(base, leaf=leaf, host=host, issuer=issuer)
                         p[factor] = v
                         rec.case(["factor", p])
+                        run_point(rec, p, certs)
+        # (i-b) TLS-in-TLS with a separately pinned proxy leg and every origin-side mode: a verified proxy hop says nothing
+        # about the origin hop
+        if not pyopenssl:
+            for cr in CERT_REQS + ["unset"]:
+                for ah in (False, "unset"):
+                    for leaf, host, issuer in (("exact", "good.test", "trusted"), ("exact", "good.test", "untrusted"), ("other", "good.test", "untrusted")):
+                        idx += 1
+                        if (idx // 2) % max(1, ctx.nshards // 2) != ctx.shard // 2:
+                            continue
+                        p = dict(base, leaf=leaf, host=host, issuer=issuer, route="https-tunnel", proxy_pin=True, cert_reqs=cr, assert_hostname=ah)
+                        rec.case(["pinned-proxy", p])
+                        rec.mon("pinned_proxy_tunnel")
                         run_point(rec, p, certs)
         # (ii) random lattice points
         n = ctx.pick(900, 12000)
